@@ -73,9 +73,14 @@ def ev(e, env):
         raise AnalysisError('pure evaluator: unary %s' % type(e.op).__name__)
     if isinstance(e, ast.IfExp):
         return ev(e.body, env) if ev(e.test, env) else ev(e.orelse, env)
-    if isinstance(e, ast.BinOp) and isinstance(e.op, (ast.Add, ast.Sub)):
+    if isinstance(e, ast.BinOp) and isinstance(e.op, (ast.Add, ast.Sub, ast.BitAnd, ast.BitOr)):
         a, b = ev(e.left, env), ev(e.right, env)
-        return a + b if isinstance(e.op, ast.Add) else a - b
+        return {ast.Add: operator.add, ast.Sub: operator.sub, ast.BitAnd: operator.and_, ast.BitOr: operator.or_}[type(e.op)](a, b)
+    if isinstance(e, ast.Call) and isinstance(e.func, ast.Attribute) and not e.args and not e.keywords:
+        o = ev(e.func.value, env)
+        if isinstance(o, Obj) and callable(o.__dict__.get(e.func.attr)):
+            return o.__dict__[e.func.attr]()
+        raise AnalysisError('pure evaluator: call %s not modelled' % norm(e))
     raise AnalysisError('pure evaluator: unsupported expression %s' % norm(e))
 
 
@@ -87,6 +92,10 @@ def run_body(stmts, env):
             run_body(s.body if ev(s.test, env) else s.orelse, env)
         elif isinstance(s, ast.Assign) and len(s.targets) == 1 and isinstance(s.targets[0], ast.Name):
             env[s.targets[0].id] = ev(s.value, env)
+        elif isinstance(s, ast.AugAssign) and isinstance(s.target, ast.Name) and isinstance(s.op, (ast.BitAnd, ast.BitOr, ast.Add)):
+            cur = env[s.target.id]
+            v = ev(s.value, env)
+            env[s.target.id] = {ast.BitAnd: operator.and_, ast.BitOr: operator.or_, ast.Add: operator.add}[type(s.op)](cur, v)
         elif isinstance(s, ast.Expr) and isinstance(s.value, ast.Constant):
             continue
         elif isinstance(s, ast.Pass):
